@@ -11,7 +11,8 @@ FUNCTIONS = ["miros.hsm.HsmWithQueues.defer", "miros.hsm.HsmWithQueues.recall", 
 ASSUMPTIONS = [
   "inductive step: pre-state = arbitrary numbers of pending and deferred events built through the real API, then two operations; "
   "contents are distinct concrete tokens",
-  "capacity 8 (no overflow; C16)", "ActiveObject host is not started", "handler scripts (posts, defer of the current event, recall) act on the first dispatch only",
+  "capacity 8 (no overflow; C16)", "h_capacity: capacity 3, up to 3 deferrals (a full defer queue) and up to 3 pending events (a full pending queue) when recall is "
+  "called: asserted are recall's return value, the recalled event at the back of the queue and the remaining deferrals - what a full pending queue drops at its front is C16's", "ActiveObject host is not started", "handler scripts (posts, defer of the current event, recall) act on the first dispatch only",
 ]
 OUTSIDE = ["more than two consecutive operations per case (induction on the two queue states)", "overflow (C16)", "threads (C04)"]
 EXPLANATION = ("Bounded symbolic execution (CrossHair/z3) of the real defer/recall API from a symbolic pre-state (pending and deferred "
@@ -70,6 +71,80 @@ def case(host, deco, instr, np_, nd, op1, op2, script):
 
 Family(globals(), "h_defer", params=[("host", 0, 1), ("deco", 0, 1), ("instr", 0, 1), ("np", 0, 2), ("nd", 0, 3), ("op1", 0, 5), ("op2", 0, 6), ("script", 0, 20)],
        pre=pre, case=case, split=["host", "deco", "instr", "op1"], tiers=LIM)
+
+
+# ---- at the capacity of the two queues (capacity 3): a full defer queue holds every deferral; recall into a full pending queue ---------------
+CAP = 3
+
+
+def case_capacity(host, deco, nd, npend):
+  """the handler defers each of the first nd events it is given (nd up to the capacity); then npend events are posted (up to the capacity:
+  the pending queue may be full) and nothing is dispatched; then recall() is called nd + 1 times"""
+  import miros.hsm as hsm
+  chart = queued.make_host(host, 0, CAP)
+  import miros.event as ev
+  log = []
+  todo = [nd]
+
+  def only(c, e):
+    sg = ev.signals
+    if e.signal in (sg.ENTRY_SIGNAL, sg.INIT_SIGNAL, sg.EXIT_SIGNAL):
+      return ev.return_status.HANDLED
+    if e.signal_name.startswith("T_"):
+      if todo[0] > 0:
+        todo[0] -= 1
+        c.defer(e)
+      else:
+        log.append(e.signal_name)
+      return ev.return_status.HANDLED
+    c.temp.fun = c.top
+    return ev.return_status.SUPER
+  only.__name__ = "only"
+  hsm.HsmWithQueues.start_at(chart, hsm.spy_on(only) if deco else only)
+  what = "host=%d deco=%d capacity=%d: %d events deferred one after the other, then %d posted, then %d recalls" % (host, deco, CAP, nd, npend, nd + 1)
+
+  def pending():
+    q = chart.queue
+    return [e.signal_name for e in (q.deque if hasattr(q, "deque") else q)]
+  try:
+    work = []
+    for i in range(nd):
+      e = ev.Event(signal="T_W%d" % i)
+      work.append(e.signal_name)
+      chart.post_fifo(e)
+      chart.next_rtc()
+    held = [e.signal_name for e in chart.defer_queue]
+    if held != work:
+      return FAIL("deferred-queue:at-capacity", "%s: deferred %s expected %s" % (what, held, work))
+    if log:
+      return FAIL("dispatch-of-deferred", "%s: dispatched %s while deferred" % (what, log))
+    for i in range(npend):
+      chart.post_fifo(ev.Event(signal="T_P%d" % i))
+    for i in range(nd + 1):
+      before = pending()
+      r = chart.recall()
+      got = None if r is None else r.signal_name
+      want = work[i] if i < nd else None
+      if got != want:
+        return FAIL("recall-return:at-capacity", "%s: recall number %d returned %s expected %s (pending before: %s, deferred now %s)" % (
+          what, i, got, want, before, [e.signal_name for e in chart.defer_queue]))
+      now = pending()
+      if want is not None and (not now or now[-1] != want):
+        return FAIL("pending-after-recall:at-capacity", "%s: recall number %d: the recalled event is not at the back of the queue: %s" % (what, i, now))
+      if want is None and now != before:
+        return FAIL("pending-after-recall:at-capacity", "%s: a recall with nothing deferred changed the queue: %s -> %s" % (what, before, now))
+      rest = [e.signal_name for e in chart.defer_queue]
+      if rest != work[i + 1:]:
+        return FAIL("deferred-queue:at-capacity", "%s: after recall number %d deferred %s expected %s" % (what, i, rest, work[i + 1:]))
+  except Exception as ex:
+    return FAIL("raised:" + type(ex).__name__, "%s: %r" % (what, ex))
+  if queued.NBQueue.blocked:
+    return FAIL("would-block", what)
+  return PASS(nontrivial=nd > 0)
+
+
+Family(globals(), "h_capacity", params=[("host", 0, 1), ("deco", 0, 1), ("nd", 0, 3), ("npend", 0, 3)], pre=lambda v, lim: True, case=case_capacity,
+       split=[], tiers={"quick": {}, "thorough": {}})
 
 
 def set_tier(tier):
